@@ -160,7 +160,8 @@ func (c Cfg) isBad(i int) bool {
 // Faults is the scripted misbehaviour of the environment; every script is a counted list, consumed
 // per key in call order.  Keys are "<pass>:<start>" (pass = number of GetRoot calls so far).
 type Faults struct {
-	Fetch map[string][]int    `json:"fetch"` // get-entries starting at <start>: k>0 = return only k entries, -1 = HTTP 500, -2 = HTTP 429
+	Fetch map[string][]int    `json:"fetch"` // get-entries starting at <start>: k>0 = return only k entries, 0 = as asked, -1 = HTTP 500, -2 = HTTP 429,
+	// -3/-4/-5 = the empty page: 200 with zero entries, spelled {"entries":[]} / {"entries":null} / {}
 	Add   map[string][]string `json:"add"`   // AddSequencedLeaves of the batch starting at <start>: gRPC code names, then OK
 	Root  map[string][]string `json:"root"`  // key "<pass>": GetLatestSignedLogRoot codes
 	STH   map[string][]int    `json:"sth"`   // key "<pass>": HTTP status codes for get-sth
@@ -249,6 +250,8 @@ type World struct {
 	events      int
 	badRange    int
 	addOK       int
+	emptyPages  int // empty get-entries pages served
+	emptyAdds   int // AddSequencedLeaves requests without leaves refused
 	kinds       map[string]bool
 }
 
@@ -497,7 +500,8 @@ func (w *World) getConsistency(first, second int) (int, []byte) {
 func (w *World) getEntries(start, end int) (int, []byte) {
 	reqEnd := end
 	key := fmt.Sprintf("%d:%d", w.pass, start)
-	if k, ok := pop(w.F.Fetch, key); ok && k < 0 {
+	empty := 0
+	if k, ok := pop(w.F.Fetch, key); ok && (k == -1 || k == -2) {
 		st := 500
 		if k == -2 {
 			st = 429
@@ -505,9 +509,11 @@ func (w *World) getEntries(start, end int) (int, []byte) {
 		w.kinds["fetch:err"] = true
 		w.emit(map[string]any{"ev": "Fetch", "start": start, "end": end, "code": "ERR", "n": 0})
 		return st, []byte("injected")
+	} else if ok && k <= -3 {
+		empty = k
 	} else if ok && k > 0 && k < end-start+1 {
 		end = start + k - 1 // short read
-		w.kinds["fetch:short"] = true
+		w.kinds[fmt.Sprintf("fetch:short:%d/%d", k, reqEnd-start+1)] = true
 	}
 	if start < 0 || start >= w.srcSize {
 		w.emit(map[string]any{"ev": "Fetch", "start": start, "end": reqEnd, "code": "ERR", "n": 0})
@@ -517,6 +523,13 @@ func (w *World) getEntries(start, end int) (int, []byte) {
 			w.envLocked("cancel")
 		}
 		return 400, []byte("bad range")
+	}
+	if empty != 0 {
+		// the extreme short read: 200 and no entries (a lagging frontend); the same request is served when asked again
+		w.kinds["fetch:empty"] = true
+		w.emptyPages++
+		w.emit(map[string]any{"ev": "Fetch", "start": start, "end": reqEnd, "code": "OK", "n": 0})
+		return 200, []byte([]string{`{"entries":[]}`, `{"entries":null}`, `{}`}[(-empty-3)%3])
 	}
 	if end >= w.srcSize {
 		end = w.srcSize - 1
@@ -603,7 +616,9 @@ func (w *World) closePassLocked() {
 }
 
 // AddSequencedLeaves stores leaves under their indices: OK / ALREADY_EXISTS for an identical leaf /
-// FAILED_PRECONDITION for a different leaf under an occupied index.
+// FAILED_PRECONDITION for a different leaf under an occupied index.  A request without leaves is refused with
+// InvalidArgument, as Trillian's log server does (server/validate.go, validateLogLeaves: "Leaves empty"):
+// clause EmptyRequestRefused of the specification.
 func (b *Backend) AddSequencedLeaves(ctx context.Context, in *trillian.AddSequencedLeavesRequest, _ ...grpc.CallOption) (*trillian.AddSequencedLeavesResponse, error) {
 	w := b.W
 	w.mu.Lock()
@@ -620,6 +635,13 @@ func (b *Backend) AddSequencedLeaves(ctx context.Context, in *trillian.AddSequen
 	bkey := fmt.Sprintf("[%d,%d)", start, start+int64(n))
 	// the request itself is judged whatever the reply will be
 	leaves := w.judge(in.Leaves)
+	if n == 0 {
+		w.setTerminal() // the pass fails, loudly: completion is not promised for it
+		w.emptyAdds++
+		w.kinds["add:empty-refused"] = true
+		w.emit(map[string]any{"ev": "Add", "start": start, "n": 0, "code": "InvalidArgument", "leaves": leaves})
+		return nil, gstatus.Error(codes.InvalidArgument, "AddSequencedLeavesRequest.Leaves empty")
+	}
 	if w.quotaOpen[bkey] > 0 {
 		w.quotaOpen[bkey]-- // this is the retry of a batch that had been refused for quota
 		if !time.Now().After(w.quotaAt[bkey]) { // virtual time (synctest): a retry "with back-off" comes later, not at once
